@@ -108,6 +108,7 @@ package object
 //@ trusted
 //@ modifies nothing
 //@ ensures result0 == uf("CMPobj", int, self, other) && (result1 == nil) == uf("CMPok", bool, self, other)
+//@ ensures result1 == nil ==> oneof(result0, -1, 0, 1)
 
 //@ func (Object).IsTruthy
 //@ trusted
